@@ -484,11 +484,16 @@ theorem recipient_error_content_free (p : Bytes → Option Key) (maxTok limit : 
   · have := hall l (by rw [hb]; simp)
     rw [hc] at this; cases this
 
-/-- Identities file (library and CLI loop): the same for identity lines — the
-    error value depends on the position of the offending line only, never on
-    its (secret) content. See the analysis above for what the Go error text
-    adds to the line number. -/
-theorem identity_error_no_secret (p : Bytes → Option Key) (maxTok limit : Nat) (b b' : Bytes)
+/-- Identities file (library and CLI loop). FULL STATEMENT (DESIGN.md §8 C18, not
+    provable in this model, whose errors are classes and whose line parser is a
+    parameter): "the error TEXT for an identity line embeds at most positions,
+    lengths, one code point and — only when a bech32 string with a valid checksum
+    has a `1` after the prefix — the part before the last `1`; so no substring of
+    the secret data part longer than one character appears". PROVED HERE: the
+    part the model carries — the error VALUE depends on the position of the
+    offending line only, never on its (secret) content. The text-level part is the
+    code-reading analysis above plus the harness oracle on the real messages. -/
+theorem identity_error_no_secret_partial (p : Bytes → Option Key) (maxTok limit : Nat) (b b' : Bytes)
     (pre post post' : List Bytes) (l l' : Bytes)
     (hb : linesOf maxTok limit b = pre ++ l :: post) (hb' : linesOf maxTok limit b' = pre ++ l' :: post')
     (hc : content l = true) (hp : p l = none) (hc' : content l' = true) (hp' : p l' = none) :
